@@ -44,7 +44,12 @@ GENERIC = (
     "assignment (`*=`) on Quantity attributes; keyword values None; aspect ratios above 1e13 and sizes near 1e-170 / 1e160; compounds with a point/line/text operand; "
     "integer/bool `dtype=` of `to_image`; complex images; oblique CAR (CRVAL2 != 0); converted regions sharing list-valued entries; centres with a "
     "distance; centres exactly at CRVAL; exponent-notation and leading-dot numbers; labels containing ', key=value'; columns padded to a common "
-    "width; empty region lists; rotation by exactly 0; `transform=` keyword; Latitude/Longitude angle objects.")
+    "width; empty region lists; rotation by exactly 0; `transform=` keyword; Latitude/Longitude angle objects; x and y arrays of different dtypes; "
+    "masks above 2**15 pixels; attributes re-assigned by a tiny step (`==`/allclose shortcuts); images / data masks given as nested lists; "
+    "N-D SkyCoord queries; sky polygons with edges of tens of degrees; APE-14 WCS objects that are not astropy.wcs.WCS (sliced cubes); pixel "
+    "scale taken at the reference pixel instead of locally; compound operands whose boxes share exactly one pixel column; SkyCoords held in "
+    "hourangle/radians; format keywords (background, source, ...) as words inside labels/tags; '#' inside quoted values; big-endian tables read "
+    "from FITS files; anything depending on the wall clock; zero-length lines; `__getstate__`/`__ne__` hooks; NaN sizes.")
 
 LEFT = (
     "Think about what is LEFT: e.g. the order in which two independent features are applied; behaviour at the exact edge of a documented domain "
